@@ -3,6 +3,24 @@
 use super::super::verif_bv_common::*;
 use super::*;
 
+/// bits z..n are ones, everything else zero - computed at compile time so that set-up needs no unwinding
+const fn pattern_words<const NW: usize>(z: usize, n: usize) -> [u64; NW] {
+    let mut words = [0u64; NW];
+    let mut wi = 0;
+    while wi < NW {
+        let mut b = 0;
+        while b < 64 {
+            let p = 64 * wi + b;
+            if p >= z && p < n {
+                words[wi] |= 1u64 << b;
+            }
+            b += 1;
+        }
+        wi += 1;
+    }
+    words
+}
+
 fn assemble(pairs: &[u64], s0: &[usize], s1: &[usize], bv: BitVector) -> RSNarrow {
     RSNarrow {
         bv,
@@ -63,103 +81,113 @@ fn any_directory<const NB: usize>() -> ([u64; 10], [usize; 33]) {
     (pairs, cum)
 }
 
+/// count of ones (ONES) / zeros before word w, from the per-word cumulative ones `cum`
+fn cnt_before<const ONES: bool>(cum: &[usize; 33], w: usize) -> usize {
+    if ONES {
+        cum[w]
+    } else {
+        64 * w - cum[w]
+    }
+}
+/// block (512 bits) holding the (k+1)-th occurrence, among NB blocks (k < total)
+fn blk_of<const ONES: bool, const NB: usize>(cum: &[usize; 33], k: usize) -> usize {
+    let mut r = 0;
+    let mut b = 0;
+    while b < NB {
+        if cnt_before::<ONES>(cum, 8 * b) <= k {
+            r = b;
+        }
+        b += 1;
+    }
+    r
+}
+/// Weakest condition on the select hints under which the block search is right (what `new` has to
+/// establish, and all the stage harness assumes): for every hint period h that holds an occurrence,
+/// hints[h] is not after the block of occurrence 1024*h, hints[h+1] is not before the block of the
+/// last occurrence of the period, and every hint indexes an existing (rank, sub-ranks) pair.
+fn hints_ok<const ONES: bool, const NB: usize>(cum: &[usize; 33], hints: &[usize], npairs: usize) -> bool {
+    let total = cnt_before::<ONES>(cum, 8 * NB);
+    let mut ok = true;
+    let mut h = 0;
+    while h < 3 {
+        if 1024 * h < total {
+            if h + 1 >= hints.len() {
+                return false;
+            }
+            let last_k = if 1024 * (h + 1) < total { 1024 * (h + 1) - 1 } else { total - 1 };
+            ok = ok && hints[h] <= blk_of::<ONES, NB>(cum, 1024 * h);
+            ok = ok && hints[h + 1] >= blk_of::<ONES, NB>(cum, last_k);
+            ok = ok && hints[h] < npairs && hints[h + 1] < npairs;
+        }
+        h += 1;
+    }
+    ok
+}
+
 macro_rules! select_stage {
-    ($name:ident, $nb:expr, $ones:expr, $cross:expr) => {
+    ($name:ident, $nb:expr, $ones:expr) => {
         #[kani::proof]
         #[kani::unwind(36)]
         fn $name() {
             const NB: usize = $nb;
             let (pairs, cum) = any_directory::<NB>();
             let npairs = NB + 2;
-            let last = npairs - 1;
-            let total = if $ones { cum[8 * NB] } else { 512 * NB - cum[8 * NB] };
-            // select hints as `new` writes them: hint h = block in which the count first reaches 1024*h, then the guard
-            let rs = if $cross {
-                kani::assume(total >= 1024);
-                let mut cross = 0usize;
-                let mut b = NB;
-                while b > 0 {
-                    b -= 1;
-                    let upto = if $ones { cum[8 * (b + 1)] } else { 512 * (b + 1) - cum[8 * (b + 1)] };
-                    if upto >= 1024 {
-                        cross = b;
-                    }
-                }
-                let smp = [0, cross, last];
-                if $ones {
-                    assemble(&pairs[..2 * npairs], &[0, last], &smp, BitVector::default())
-                } else {
-                    assemble(&pairs[..2 * npairs], &smp, &[0, last], BitVector::default())
-                }
+            let total = cnt_before::<$ones>(&cum, 8 * NB);
+            // any hints satisfying the weakest precondition (not only the ones `new` happens to write)
+            let hints: [usize; 3] = kani::any();
+            kani::assume(hints_ok::<$ones, NB>(&cum, &hints, npairs));
+            let dummy = [0usize, npairs - 1, npairs - 1];
+            let rs = if $ones {
+                assemble(&pairs[..2 * npairs], &dummy, &hints, BitVector::default())
             } else {
-                kani::assume(total < 1024);
-                assemble(&pairs[..2 * npairs], &[0, last], &[0, last], BitVector::default())
+                assemble(&pairs[..2 * npairs], &hints, &dummy, BitVector::default())
             };
             let k: usize = kani::any();
             kani::assume(k < total);
             let (wd, rank) = if $ones { rs.select1_subblock(k) } else { rs.select0_subblock(k) };
             assert!(wd < 8 * NB);
-            let before = if $ones { cum[wd] } else { 64 * wd - cum[wd] };
-            let after = if $ones { cum[wd + 1] } else { 64 * (wd + 1) - cum[wd + 1] };
+            let before = cnt_before::<$ones>(&cum, wd);
+            let after = cnt_before::<$ones>(&cum, wd + 1);
             assert!(rank == before);
             assert!(before <= k && k < after);
             kani::cover!(wd == 8 * NB - 1, "answer in the last word");
             kani::cover!(wd % 8 == 0 && wd > 0, "answer in the first word of a later block");
-            kani::cover!(!$cross || k >= 1024, "query above the first hint period");
+            kani::cover!(k >= 1024, "query in the second hint period");
+            kani::cover!(k >= 1024 && hints[1] < blk_of::<$ones, NB>(&cum, 1024), "hint before the block it must not pass");
             core::mem::forget(rs);
         }
     };
 }
 // @h props=C06,C04:t,C10 tier=quick family=S mem=6 timeout=1800 role=rsnarrow.select1_subblock
-// @bound assembled directory of 3 blocks (24 words) with arbitrary per-word populations 0..=64, fewer than 1024 ones in total (one hint); every valid k
+// @bound assembled directory of 3 blocks (24 words) with arbitrary per-word populations 0..=64 (up to 1536 ones: two hint periods) and ANY select hints satisfying the weakest precondition; every valid k
 // @funcs RSNarrow::select1_subblock, RSNarrow::sub_block_rank, RSNarrow::block_rank
-select_stage!(c06_narrow_select1_stage_nb3, 3, true, false);
+select_stage!(c06_narrow_select1_stage_nb3, 3, true);
 // @h props=C06,C04:t,C10 tier=quick family=S mem=6 timeout=1800 role=rsnarrow.select0_subblock
-// @bound assembled directory of 3 blocks, fewer than 1024 zeros in total; every valid k
+// @bound assembled directory of 3 blocks with arbitrary per-word populations and ANY admissible hints; every valid k (zeros)
 // @funcs RSNarrow::select0_subblock, RSNarrow::sub_block_rank, RSNarrow::block_rank
-select_stage!(c06_narrow_select0_stage_nb3, 3, false, false);
-// @h props=C06,C10 tier=quick family=S mem=6 timeout=1800 role=rsnarrow.select1_subblock.hint
-// @bound assembled directory of 3 blocks with at least 1024 ones: two hint periods, hint placed where `new` places it; every valid k
-// @funcs RSNarrow::select1_subblock, RSNarrow::sub_block_rank, RSNarrow::block_rank
-select_stage!(c06_narrow_select1_stage_nb3_hint, 3, true, true);
-// @h props=C06,C10 tier=quick family=S mem=6 timeout=1800 role=rsnarrow.select0_subblock.hint
-// @bound assembled directory of 3 blocks with at least 1024 zeros: two hint periods; every valid k
-// @funcs RSNarrow::select0_subblock, RSNarrow::sub_block_rank, RSNarrow::block_rank
-select_stage!(c06_narrow_select0_stage_nb3_hint, 3, false, true);
+select_stage!(c06_narrow_select0_stage_nb3, 3, false);
 
-/// `new` on concrete vectors (everything folds), queries symbolic: all-ones, zeros-then-ones with the
-/// 1024-th one in the LAST word of the vector, alternating bits.
+/// `new` on concrete vectors (zeros 0..z, ones z..n): establishes the directory layout and admissible hints
+/// (the two facts the stage harnesses assume); rank for every position (symbolic). select() through the
+/// heap-allocated directory exhausts memory in CBMC's array theory even on concrete contents (probe: 21 GB):
+/// it is decided at stage level (select*_subblock on assembled directories) + line kernel.
 macro_rules! narrow_concrete {
     ($name:ident, $l:expr, $n:expr, $z:expr, $unw:expr) => {
         #[kani::proof]
         #[kani::unwind($unw)]
-        #[kani::stub(crate::utils::select_in_word, crate::utils::verif_utils_stubs::select_in_word_contract)]
         fn $name() {
-            // bits z..n are ones, bits 0..z zeros
             const N: usize = $n;
             const Z: usize = $z;
-            let mut words = [0u64; 8 * $l];
-            let mut wi = 0;
-            while wi < 8 * $l {
-                let lo = 64 * wi;
-                let mut w = 0u64;
-                let mut b = 0;
-                while b < 64 {
-                    if lo + b >= Z && lo + b < N {
-                        w |= 1u64 << b;
-                    }
-                    b += 1;
-                }
-                words[wi] = w;
-                wi += 1;
-            }
+            const WORDS: [u64; 8 * $l] = pattern_words::<{ 8 * $l }>($z, $n);
             let mut lines: Vec<crate::bitvector::DataLine> = Vec::with_capacity($l);
+            let mut cum = [0usize; 33];
             let mut l = 0;
             while l < $l {
                 let mut dl = crate::bitvector::DataLine::default();
                 let mut k = 0;
                 while k < 8 {
-                    dl.words[k] = words[8 * l + k];
+                    dl.words[k] = WORDS[8 * l + k];
+                    cum[8 * l + k + 1] = cum[8 * l + k] + WORDS[8 * l + k].count_ones() as usize;
                     k += 1;
                 }
                 lines.push(dl);
@@ -168,6 +196,19 @@ macro_rules! narrow_concrete {
             let bv = BitVector { data: lines.into_boxed_slice(), n_bits: N, n_ones: N - Z };
             let rs = RSNarrow::new(bv);
             assert!(rs.n_ones() == N - Z && rs.n_zeros() == Z);
+            // layout: every word's rank; the pairs after the last block carry the total
+            let npairs = rs.block_rank_pairs.len() / 2;
+            assert!(npairs >= $l + 1);
+            let mut w = 0;
+            while w < 8 * $l {
+                assert!(rs.sub_block_rank(w) == cum[w]);
+                w += 1;
+            }
+            assert!(rs.block_rank($l) == N - Z);
+            // hints admissible for ones and for zeros
+            assert!(hints_ok::<true, $l>(&cum, &rs.select_samples[1], npairs));
+            assert!(hints_ok::<false, $l>(&cum, &rs.select_samples[0], npairs));
+            // rank for every position
             let i: usize = kani::any();
             let r = rs.rank1(i);
             if i <= N {
@@ -175,37 +216,23 @@ macro_rules! narrow_concrete {
             } else {
                 assert!(r.is_none());
             }
-            let k: usize = kani::any();
-            let s1 = rs.select1(k);
-            if k < N - Z {
-                assert!(s1 == Some(Z + k));
-            } else {
-                assert!(s1.is_none());
-            }
-            let s0 = rs.select0(k);
-            if k < Z {
-                assert!(s0 == Some(k));
-            } else {
-                assert!(s0.is_none());
-            }
-            kani::cover!(k >= 1024 && k < N - Z, "select above the first hint period");
             kani::cover!(i == N, "rank at the end");
             core::mem::forget(rs);
         }
     };
 }
-// @h props=C06,C04 tier=quick family=T mem=6 timeout=1800 stubs=utils::select_in_word->contract role=rsnarrow.concrete.all_ones
-// @bound RSNarrow::new on the concrete all-ones vector of 1536 bits (3 lines, 1536 ones: two hint periods), rank position and select index symbolic over the machine range
-// @funcs RSNarrow::new, RSNarrow::rank1, RSNarrow::select1, RSNarrow::select0, RSNarrow::n_ones, RSNarrow::select1_subblock
-narrow_concrete!(c06_narrow_concrete_ones1536, 3, 1536, 0, 70);
-// @h props=C06,C04 tier=quick family=T mem=6 timeout=1800 stubs=utils::select_in_word->contract role=rsnarrow.concrete.tail_cross
-// @bound RSNarrow::new on 452 zeros followed by 1030 ones (1482 bits: the 1024-th one lies in the last word of the vector), queries symbolic
+// @h props=C06,C04 tier=quick family=T mem=8 timeout=1800 role=rsnarrow.concrete.all_ones
+// @bound RSNarrow::new on the concrete all-ones vector of 1536 bits (3 lines, two hint periods): layout, admissible hints, rank1 for every position (symbolic); select through this directory is the stage harness
+// @funcs RSNarrow::new, RSNarrow::rank1, RSNarrow::select1, RSNarrow::select0, RSNarrow::n_ones, RSNarrow::sub_block_rank
+narrow_concrete!(c06_narrow_concrete_ones1536, 3, 1536, 0, 27);
+// @h props=C06,C04 tier=quick family=T mem=8 timeout=1800 role=rsnarrow.concrete.tail_cross
+// @bound RSNarrow::new on 452 zeros followed by 1030 ones (1482 bits: the 1024-th one lies in the last word of the vector)
 // @funcs RSNarrow::new, RSNarrow::rank1, RSNarrow::select1, RSNarrow::select0
-narrow_concrete!(c06_narrow_concrete_tail_cross, 3, 1482, 452, 70);
-// @h props=C06 tier=quick family=T mem=6 timeout=1800 stubs=utils::select_in_word->contract role=rsnarrow.concrete.zeros_then_ones
-// @bound RSNarrow::new on 1100 zeros followed by 60 ones (1160 bits: zeros cross a hint period), queries symbolic
+narrow_concrete!(c06_narrow_concrete_tail_cross, 3, 1482, 452, 27);
+// @h props=C06 tier=quick family=T mem=8 timeout=1800 role=rsnarrow.concrete.zeros_then_ones
+// @bound RSNarrow::new on 1100 zeros followed by 60 ones (1160 bits: the zeros cross a hint period)
 // @funcs RSNarrow::new, RSNarrow::rank1, RSNarrow::select1, RSNarrow::select0
-narrow_concrete!(c06_narrow_concrete_zeros1100, 3, 1160, 1100, 70);
+narrow_concrete!(c06_narrow_concrete_zeros1100, 3, 1160, 1100, 27);
 
 macro_rules! new_layout {
     ($name:ident, $l:expr) => {
@@ -267,7 +294,7 @@ macro_rules! narrow_rank_law {
                 assert!(g.is_none() && r.is_none() && rs.rank0(i).is_none());
             }
             assert!(rs.rank1(0) == Some(0));
-            kani::cover!(i + 1 == n, "last position");
+            kani::cover!(i.wrapping_add(1) == n, "last position");
             kani::cover!(i == usize::MAX, "largest position");
             core::mem::forget(rs);
         }
